@@ -6,7 +6,7 @@
 (2) Binding: seeded workloads run on the real broker (wire driver, hooks on); every `stats` snapshot, taken at a
     quiescent point, must equal what spec/TraceStats.tla computes from the trace (packets/bytes per type and client,
     messages per QoS, drops per reason, queue gauges, session gauges, global = sum)."""
-import random
+import random, threading
 import vlib, stats_lib, stats_scen
 
 LEVEL = "model_checking"
@@ -31,24 +31,41 @@ def run(ctx):
         "refused connections and broker-sent AUTH are not exercised (the wire driver cannot install an enhanced-auth hook); subscription statistics are not part of the property",
         "memory persistence only (restart with persisted sessions is not exercised)"]
     devs = [k["deviation"] for k in stats_lib.open_deviations(ctx)]
-    # (1) design level
+    # (1) design level, in the background while the scenarios run
     steps = 6 if quick else 8
-    r0 = stats_lib.design_level(ctx, steps)
-    ctx.cov["design_level"] = {"steps": steps, "states": r0.distinct, "transitions": r0.generated}
+    design = {}
+    errors = []
+
+    def bg(key, n, dv):
+        try:
+            design[key] = stats_lib.design_level(ctx, n, devs=dv, workers=4 if quick else 8)
+        except Exception as e:      # noqa
+            errors.append(e)
+    ths = [threading.Thread(target=bg, args=("proper", steps, ()))]
     if devs:
-        r1 = stats_lib.design_level(ctx, steps - 1, devs=devs)
-        ctx.cov["design_level_with_deviations"] = {"deviations": devs, "steps": steps - 1, "states": r1.distinct}
-    # (2) binding
+        ths.append(threading.Thread(target=bg, args=("deviations", steps - 1, tuple(devs))))
+    for t in ths:
+        t.start()
+    # (2) binding (small targeted families first: the attribution passes stop at the first occurrence)
     scs = stats_scen.all_packets(rng, sid)
-    scs += stats_scen.mixed(rng, sid, 60 if quick else 700)
-    scs += stats_scen.drops(rng, sid, 30 if quick else 300)
-    scs += stats_scen.lifecycle(rng, sid, 24 if quick else 240)
-    scs += stats_scen.auth(rng, sid, 4 if quick else 20)
+    scs += stats_scen.auth(rng, sid, 3 if quick else 20)
+    scs += stats_scen.lifecycle(rng, sid, 18 if quick else 240)
+    scs += stats_scen.drops(rng, sid, 20 if quick else 300)
+    scs += stats_scen.mixed(rng, sid, 36 if quick else 700)
     if not quick:
         scs += stats_scen.lifecycle(rng, sid + "x", 8, expiry_wait=True)
-    rejected, stats = stats_lib.validate(ctx, scs, "c20", par=48 if quick else 64, jvms=5 if quick else 7)
+    rejected, stats = stats_lib.validate(ctx, scs, "c20", par=48 if quick else 64, jvms=3 if quick else 8)
+    for t in ths:
+        t.join()
+    if errors:
+        raise errors[0]
+    r0 = design["proper"]
+    ctx.cov["design_level"] = {"steps": steps, "states": r0.distinct, "transitions": r0.generated}
+    if devs:
+        ctx.cov["design_level_with_deviations"] = {"deviations": devs, "steps": steps - 1, "states": design["deviations"].distinct}
     ctx.cov["traces_validated_against_impl"] += stats["validated"] + stats["rejected"]
     ctx.cov["evaluations"] += stats["snapshots"]
     ctx.cov["distinct_nontrivial"] += stats["scenarios"]
+    needs = stats.pop("needs")
     ctx.cov["scenarios"] = stats
-    stats_lib.confirm(ctx, rejected, limit=4 if quick else 8, attribute_limit=6 if quick else 16)
+    stats_lib.confirm(ctx, rejected, needs, limit=4 if quick else 8)
